@@ -1,8 +1,103 @@
 (** C16 — sets obey set algebra across all implementations, powersets and partitions.
-    (first stage: executable sanity facts; the theorems follow) *)
-From Algo.C16 Require Import Model.
+    Statements only; proofs are in C16/Proofs*.v.
 
-Example C16_bell_values : map bell [0;1;2;3;4;5;6] = [1;1;2;5;15;52;203].
+    Vocabulary (C16/Spec.v): a mathematical finite set is a duplicate-free list [S];
+    [repr k S l] says that the member sequence [l] of a set of kind [k] (unordered, stable,
+    sorted) represents [S]: [l = S] (order of insertion) for the unordered and the stable set,
+    the comparator-sorted permutation of [S] for the sorted set.  [inv s] = [s] is duplicate
+    free, and sorted if its kind is [Sorted].  The element type has an equality function that
+    decides Leibniz equality and a comparator that is a strict total order consistent with it;
+    the oracle [draw] behind the unordered set's random iteration is arbitrary. *)
+From Coq Require Import Permutation Sorted.
+From Algo.C16 Require Import Model Spec ProofsList ProofsSet.
+Local Open Scope Z_scope.
+
+Section C16.
+  Variable A : Type.
+  Variable eqb : A -> A -> bool.
+  Variable cmp : A -> A -> Z.
+  Variable draw : nat -> nat.
+  Hypothesis eqb_spec : forall x y, eqb x y = true <-> x = y.
+  Hypothesis cmp_eq : forall x y, cmp x y = 0 <-> x = y.
+  Hypothesis cmp_anti : forall x y, cmp x y < 0 <-> 0 < cmp y x.
+  Hypothesis cmp_trans : forall x y z, cmp x y < 0 -> cmp y z < 0 -> cmp x z < 0.
+
+  (** After any history of Add/Remove/RemoveAll (any arguments) each implementation represents
+      the mathematical set computed by the specification; nothing panics or hangs. *)
+  Theorem C16_history_refines :
+    forall (k : kind) (h : list (mut A)),
+      exists l, vrun_hist A eqb cmp (vnew A k) h = Ok (mkv k l) /\ repr A cmp k (s_run A eqb h) l.
+  Proof. intros; eapply history_refines; eauto. Qed.
+
+  (** Every query of a set that represents [S] answers as the mathematical set does:
+      Contains, Size, IsEmpty, All (a permutation for every oracle; exactly the insertion order
+      for the stable set; exactly the comparator order for the sorted set), AnyMatch, AllMatch,
+      FirstMatch (some member satisfying the predicate iff one exists). *)
+  Theorem C16_queries :
+    forall (k : kind) (S l : list A), repr A cmp k S l ->
+      (forall vs, vcontains A eqb cmp (mkv k l) vs = Ok (forallb (fun v => existsb (fun m => eqb m v) S) vs)) /\
+      vsize A (mkv k l) = length S /\
+      visEmpty A (mkv k l) = Nat.eqb (length S) 0 /\
+      (forall t, exists r t', vall A draw (mkv k l) t = Ok (r, t') /\ Permutation r S /\
+                              (k = Stable -> r = S) /\
+                              (k = Sorted -> StronglySorted (lt A cmp) r)) /\
+      (forall p, vanyMatch A (mkv k l) p = existsb p S) /\
+      (forall p, vallMatch A (mkv k l) p = forallb p S) /\
+      (forall p, match vfirstMatch A (mkv k l) p with
+                 | Some x => In x S /\ p x = true
+                 | None => forall x, In x S -> p x = false
+                 end).
+  Proof. intros; eapply queries_repr; eauto. Qed.
+
+  (** Equal / IsSubset / IsSuperset between any two implementations decide set equality and
+      inclusion of the represented sets. *)
+  Theorem C16_comparisons :
+    forall k1 S1 l1 k2 S2 l2 t, repr A cmp k1 S1 l1 -> repr A cmp k2 S2 l2 ->
+      (exists b, vequal A eqb cmp (mkv k1 l1) (mkv k2 l2) = Ok b /\ (b = true <-> set_equiv A S1 S2)) /\
+      (exists b t', visSubset A eqb cmp draw (mkv k1 l1) (mkv k2 l2) t = Ok (b, t') /\ (b = true <-> incl S1 S2)) /\
+      (exists b t', visSuperset A eqb cmp draw (mkv k1 l1) (mkv k2 l2) t = Ok (b, t') /\ (b = true <-> incl S2 S1)).
+  Proof. intros; eapply comparisons_repr; eauto. Qed.
+
+  (** Union / Intersection / Difference with any number and any mix of implementations as
+      arguments return a well-formed set of the receiver's kind denoting the union, the
+      intersection, the difference; a stable (or unordered) receiver's members keep their order
+      (union appends, intersection and difference filter). *)
+  Theorem C16_union :
+    forall (s : vset A) (sets : list (vset A)) t, inv A cmp s -> Forall (inv A cmp) sets ->
+      exists u t', vunion A eqb cmp draw s sets t = Ok (u, t') /\ inv A cmp u /\ vk u = vk s /\
+        (forall x, In x (vm u) <-> In x (vm s) \/ exists r, In r sets /\ In x (vm r)) /\
+        (vk s <> Sorted -> exists ext, vm u = vm s ++ ext).
+  Proof. intros; eapply vunion_spec; eauto. Qed.
+
+  Theorem C16_intersection :
+    forall (s : vset A) (sets : list (vset A)), inv A cmp s -> Forall (inv A cmp) sets ->
+      exists u, vintersection A eqb cmp s sets = Ok u /\ inv A cmp u /\ vk u = vk s /\
+        (forall x, In x (vm u) <-> In x (vm s) /\ forall r, In r sets -> In x (vm r)) /\
+        (vk s <> Sorted -> exists f, vm u = filter f (vm s)).
+  Proof. intros; eapply vintersection_spec; eauto. Qed.
+
+  Theorem C16_difference :
+    forall (s : vset A) (sets : list (vset A)) t, inv A cmp s -> Forall (inv A cmp) sets ->
+      exists u t', vdifference A eqb cmp draw s sets t = Ok (u, t') /\ inv A cmp u /\ vk u = vk s /\
+        (forall x, In x (vm u) <-> In x (vm s) /\ forall r, In r sets -> ~ In x (vm r)) /\
+        (vk s <> Sorted -> exists f, vm u = filter f (vm s)).
+  Proof. intros; eapply vdifference_spec; eauto. Qed.
+End C16.
+
+(** Non-vacuity: Go [int] with the natural order satisfies the laws; a concrete history. *)
+Example C16_example :
+  let h := [MAdd Z [3;1;2]%Z; MRemove Z [1]%Z; MAdd Z [0;3]%Z] in
+  map (fun k => match vrun_hist Z Z.eqb cmpZ (vnew Z k) h with Ok s => vm s | _ => [] end)
+      [Unordered; Stable; Sorted]
+  = [[3;2;0]; [3;2;0]; [0;2;3]]%Z.
 Proof. vm_compute. reflexivity. Qed.
 
-Print Assumptions C16_bell_values.
+Example C16_bell_values : (map bell [0;1;2;3;4;5;6] = [1;1;2;5;15;52;203])%nat.
+Proof. vm_compute. reflexivity. Qed.
+
+Print Assumptions C16_history_refines.
+Print Assumptions C16_queries.
+Print Assumptions C16_comparisons.
+Print Assumptions C16_union.
+Print Assumptions C16_intersection.
+Print Assumptions C16_difference.
